@@ -54,6 +54,10 @@ func (db *DB) Open(readOnly bool) error {
 func (db *DB) openBolt() error {
 	var err error
 
+	if err = verifhook.Fault("metabase.openbolt"); err != nil {
+		return fmt.Errorf("can't open boltDB database: %w", err)
+	}
+
 	db.boltDB, err = bbolt.Open(db.info.Path, db.info.Permission, db.boltOptions)
 	if err != nil {
 		return fmt.Errorf("can't open boltDB database: %w", err)
